@@ -4,7 +4,8 @@ package main
 // Random histories (keygen, then refresh / serialize+restore / derive / sign) for FROST, FROST-Taproot, CMP and Doerner.
 // After every step: the reference consistency checker (checkSharing); group key unchanged by refresh; every share changed;
 // every mixed-epoch (t+1)-subset fails to reconstruct the key; signing with refreshed material succeeds (reference verifier);
-// a session in which one signer still uses pre-refresh material never yields a signature.
+// a session in which one signer still uses pre-refresh material never yields a signature -- on every signing entry point, every
+// signer position, one and two refreshes back, material restored from bytes (c08_mixed.go).
 
 import (
 	"bytes"
@@ -134,6 +135,12 @@ func (c *ctx) c08History(label string, n, t int, mat0 []interface{}, ops []strin
 	v0 := views(cur)
 	p0, secret := c.checkSharing(v0, 6)
 	probs = append(probs, p0...)
+	// every epoch's material as bytes, for the mixed-epoch signing sessions (c08_mixed.go)
+	store := newC08Store(label, t, seed)
+	if err := store.pushList(cur); err != nil {
+		probs = append(probs, "serialize/restore failed: "+err.Error())
+	}
+	refreshes := 0
 	for k, op := range ops {
 		if len(probs) > 0 {
 			break
@@ -142,9 +149,8 @@ func (c *ctx) c08History(label string, n, t int, mat0 []interface{}, ops []strin
 		switch op {
 		case "refresh":
 			old := views(cur)
-			// snapshot of the pre-refresh material as a party would have it on disk (the library's Refresh may alias
-			// and update scalars of the config it is given, so the in-memory object is not a faithful "old" copy)
-			snapshot, snapErr := restoreAll(cur)
+			// (the pre-refresh material is kept as bytes in `store`, as a party would have it on disk: the library's Refresh may
+			// alias and update scalars of the config it is given, so the in-memory object is not a faithful "old" copy)
 			next, et := refreshAll(cur, seed+int64(k), fmt.Sprintf("rf%d", k))
 			if et != "" || len(next) != len(cur) {
 				probs = append(probs, "refresh did not complete: "+et)
@@ -202,13 +208,13 @@ func (c *ctx) c08History(label string, n, t int, mat0 []interface{}, ops []strin
 					}
 				}
 			}
-			// stale signer: one party keeps its pre-refresh material
-			if k == 0 && t >= 1 && snapErr == "" {
-				mixed := append([]interface{}{}, next...)
-				mixed[0] = snapshot[0]
-				if ps := c.staleSign(mixed, t); len(ps) > 0 {
-					probs = append(probs, ps...)
-				}
+			// stale signers: every signing entry point, every way of giving one / all but one signer pre-refresh material
+			// (restored from bytes), one and two refreshes old; after the first and the second refresh (thorough: every refresh)
+			refreshes++
+			if err := store.pushList(next); err != nil {
+				probs = append(probs, "serialize/restore failed: "+err.Error())
+			} else if len(probs) == 0 && (refreshes <= 2 || c.thorough()) {
+				c.c08MixedHistory(store)
 			}
 			cur = next
 		case "restore":
@@ -235,6 +241,10 @@ func (c *ctx) c08History(label string, n, t int, mat0 []interface{}, ops []strin
 			}
 			secret = sec2
 			cur = next
+			// the stored epochs follow the derivation (stale material of the SAME key)
+			if err := store.derive(uint32(7 + k)); err != nil {
+				probs = append(probs, "derive failed: stored pre-refresh material: "+err.Error())
+			}
 		case "sign":
 			probs = append(probs, c.signWith(cur, t, []byte(fmt.Sprintf("c08-%d-%d", seed, k)))...)
 		}
@@ -265,65 +275,24 @@ func (c *ctx) c08History(label string, n, t int, mat0 []interface{}, ops []strin
 	}
 }
 
-// staleSign: signing where party 0 uses pre-refresh material: no honest party may return a signature
-func (c *ctx) staleSign(mixed []interface{}, t int) []string {
-	var probs []string
-	msg := []byte("stale-signer-message-0123456789ab")
-	var results []interface{}
-	switch mixed[0].(type) {
-	case *frost.Config:
-		cfgs := map[party.ID]*frost.Config{}
-		var ids []party.ID
-		for _, m := range mixed {
-			cfgs[m.(*frost.Config).ID] = m.(*frost.Config)
-			ids = append(ids, m.(*frost.Config).ID)
-		}
-		S := ids[:t+1]
-		s := runToEnd(specFrostSign(cfgs, S, msg, []byte("stale")), 3, "fifo")
-		for _, id := range S {
-			r, _ := resultOf(s.Nodes[id])
-			results = append(results, r)
-		}
-	case *frost.TaprootConfig:
-		cfgs := map[party.ID]*frost.TaprootConfig{}
-		var ids []party.ID
-		for _, m := range mixed {
-			cfgs[m.(*frost.TaprootConfig).ID] = m.(*frost.TaprootConfig)
-			ids = append(ids, m.(*frost.TaprootConfig).ID)
-		}
-		S := ids[:t+1]
-		s := runToEnd(specFrostSignTaproot(cfgs, S, msg, []byte("stale")), 3, "fifo")
-		for _, id := range S {
-			r, _ := resultOf(s.Nodes[id])
-			results = append(results, r)
-		}
-	case *cmp.Config:
-		cfgs := map[party.ID]*cmp.Config{}
-		var ids []party.ID
-		for _, m := range mixed {
-			cfgs[m.(*cmp.Config).ID] = m.(*cmp.Config)
-			ids = append(ids, m.(*cmp.Config).ID)
-		}
-		S := ids[:t+1]
-		s := runToEnd(specCMPSign(cfgs, S, msg[:32], []byte("stale")), 3, "fifo")
-		for _, id := range S {
-			r, _ := resultOf(s.Nodes[id])
-			results = append(results, r)
-		}
-	}
-	for _, r := range results {
-		if r != nil {
-			probs = append(probs, "stale-signer: a session in which one signer used pre-refresh material returned a signature")
-			break
-		}
-	}
-	return probs
-}
-
 func runC08(c *ctx) {
+	if c.replay != "" {
+		var rp c08MixReplay
+		if err := readJSON(c.replay, &rp); err == nil && rp.Protocol != "" {
+			c.res.Rule = "replay of one mixed-epoch signing session"
+			if strings.HasPrefix(rp.Protocol, "cmp") {
+				usePrimeCache()
+			}
+			c.c08ReplayMixed(&rp)
+			return
+		}
+	}
 	r := c.res.Rng
 	c.res.Rule = "histories keygen;(refresh|restore|derive|sign)* of length <=4 (thorough <=6) for FROST, FROST-Taproot (n<=4, all t), CMP n=3, Doerner; oracles by the reference after every step; " +
-		"non-trivial = history contains a refresh; distinct by (material, n, t, history, seed)"
+		"after the first and second refresh (thorough: every refresh) mixed-epoch signing sessions on every signing entry point (cmp sign / presign / presign-online, frost sign, taproot sign, doerner sign): " +
+		"signer sets minimal prefix / minimal non-prefix / non-contiguous / everybody, one signer stale (each position) or all but one stale, material 1 and 2 refreshes old restored from bytes " +
+		"(quick tier: the 3-signer CMP sets are sampled); non-trivial = history contains a refresh / a mixed session whose stale material differs from the current one; " +
+		"distinct by (material, n, t, history, seed) resp. (entry point, n, t, signers, which signer, what is stale, epoch)"
 	opsPool := []string{"refresh", "restore", "derive", "sign", "refresh"}
 	genOps := func(maxLen int, withDerive bool) []string {
 		n := 2 + r.Intn(maxLen-1)
@@ -367,6 +336,25 @@ func runC08(c *ctx) {
 			}
 		}
 	}
+	// fixed histories with two refreshes (a random history need not contain two), one of them for a group the quick tier skips above
+	for _, nt := range [][2]int{{3, 1}, {4, 2}} {
+		for _, tap := range []bool{false, true} {
+			k++
+			n, t := nt[0], nt[1]
+			ids := idsOf(idSets[[]string{"names", "short", "nonascii"}[k%3]][:n]...)
+			label := "frost"
+			if tap {
+				label = "frost-taproot"
+			}
+			kg := runToEnd(specFrostKeygen(ids, t, tap, []byte(fmt.Sprintf("c08-%d", k))), c.res.Seed+int64(k), "fifo")
+			_, raw, probs := viewsOfSim(kg)
+			if len(probs) > 0 {
+				c.res.Violate("property", "C08/"+label+"/keygen-incomplete", strings.Join(probs, "; "), nil)
+				continue
+			}
+			c.c08History(label, n, t, raw, []string{"refresh", "restore", "refresh", "sign"}, c.res.Seed*131+int64(k))
+		}
+	}
 	// CMP
 	usePrimeCache()
 	{
@@ -376,7 +364,7 @@ func runC08(c *ctx) {
 		if len(probs) > 0 {
 			c.res.Violate("property", "C08/cmp/keygen-incomplete", strings.Join(probs, "; "), nil)
 		} else {
-			ops := []string{"refresh", "sign"}
+			ops := []string{"refresh", "sign", "refresh"}
 			if c.thorough() {
 				ops = []string{"refresh", "restore", "derive", "refresh", "sign"}
 			}
@@ -384,6 +372,7 @@ func runC08(c *ctx) {
 		}
 	}
 	c.c08Doerner()
+	c.c08FlushObserved()
 	_ = taproot.PublicKey{}
 	_ = bytes.Equal
 }
@@ -403,7 +392,17 @@ func (c *ctx) c08Doerner() {
 	}
 	var probs []string
 	hist := []string{"keygen"}
-	for step := 0; step < 2; step++ {
+	// every epoch's material as bytes, for the mixed-epoch signing sessions (c08_mixed.go)
+	store := newC08Store("doerner", 1, c.res.Seed)
+	store.IDs, store.N = ids, 2
+	if err := store.push(map[party.ID]interface{}{ids[0]: cr, ids[1]: cs}); err != nil {
+		probs = append(probs, "serialize/restore failed: "+err.Error())
+	}
+	steps := 2
+	if c.thorough() {
+		steps = 3
+	}
+	for step := 0; step < steps && len(probs) == 0; step++ {
 		hist = append(hist, "refresh")
 		rf := twoPartySim(ids, nil, doerner.RefreshReceiver(cr, ids[0], ids[1], nil), doerner.RefreshSender(cs, ids[1], ids[0], nil), []byte{byte(step)}, true, false)
 		rf.RunFIFO(10000)
@@ -432,14 +431,12 @@ func (c *ctx) c08Doerner() {
 		if gm.Equal(pk) {
 			probs = append(probs, "mixed-epoch: new receiver share and old sender share combine to the key")
 		}
-		// stale signer
-		msg := bytes.Repeat([]byte{5}, 32)
-		st := twoPartySim(ids, nil, doerner.SignReceiver(cr2, ids[0], ids[1], msg, nil), doerner.SignSender(cs, ids[1], ids[0], msg, nil), []byte("stale"), true, true)
-		st.RunFIFO(10000)
-		for _, id := range ids {
-			if r, _ := resultOf(st.Nodes[id]); r != nil {
-				probs = append(probs, "stale-signer: a session with a pre-refresh sender share returned a signature")
-			}
+		// stale signer: receiver or sender on material one or two refreshes old, restored from bytes
+		if err := store.push(map[party.ID]interface{}{ids[0]: cr2, ids[1]: cs2}); err != nil {
+			probs = append(probs, "serialize/restore failed: "+err.Error())
+		} else if len(probs) == 0 {
+			c.c08Control(store, "doerner-sign", ids)
+			c.c08MixedEpoch(store, []string{"doerner-sign"}, map[string][][]party.ID{"doerner-sign": {ids}}, []int{1, 2}, 0)
 		}
 		cr, cs = cr2, cs2
 	}
